@@ -199,7 +199,7 @@ def h_gen(ctx: Any, n: int, prof: str, interp: str, history: bool = False, twin:
     if history:
         # the rule must not depend on what was asked before: the same rule runs first on the sibling premises
         # (other constructors / shifted ids / rotated notation keys, same values) and the outcome is thrown away
-        for sib in gens.siblings(prem):
+        for sib in gens.siblings(prem, ctx):
             try:
                 _mk('basic').exists_generalization(Proved(sib), P.EVar(x))
             except Exception:
